@@ -306,7 +306,7 @@ def genProjected (env : Env) (md : Meta) (st : Schemas) : IR × Schemas :=
     if hasKey st nm then (refTo nm, st)
     else
       let r := genFields env [] [] true md.flat .nil [] st
-      let sch : IR := .node { kind := .object, required := r.2.1 } .none r.1 .none
+      let sch : IR := objNode r.2.1 r.1
       (refTo nm, (nm, sch) :: r.2.2)
   | _ => (objectSchema, st)
 
